@@ -18,7 +18,7 @@ static META: [PropertyMeta; 8] = [
         id: "C01",
         level: "exploration",
         engine: "memo-sim",
-        rule: "a run = 1-3 worlds (OS threads with seeded stack sizes, released one at a time) and 3-6 cooperative tasks whose stages are single public API calls (T::ty, IDLBuilder::new/default, arg, serialize/serialize_to_vec, Encode!/encode_one, IDLDeserialize::new_with_config, get_value, done, Decode!/decode_one, try_from_candid_type, TypeContainer::add, subtype on knot types, env_clear) over a corpus of ~430 concrete Rust types (cross product of element/key/value types under every container, derived, generic, renamed, recursive and mutually recursive types, two different local types with the same std::any::type_name), interleaved by a seeded scheduler (sequential, uniform, bursty, alternating) with injected history events: env_clear at arbitrary instants, arguments that fail mid-value, decodes that fail mid-value (truncated message, quota abort, wrong type), abandoned builders/decoders, writer faults. Every task is also executed alone on a fresh thread as the reference. distinct = distinct (fingerprint of the thread memo before the call over 12 tracked recursive/derived types, API call kind, corpus type). non-trivial = at least two tasks shared a thread.",
+        rule: "a run = 1-3 worlds (OS threads with seeded stack sizes, released one at a time) and 3-6 cooperative tasks whose stages are single public API calls (T::ty, IDLBuilder::new/default, arg, serialize/serialize_to_vec, Encode!/encode_one, IDLDeserialize::new_with_config, get_value, done, Decode!/decode_one, try_from_candid_type, TypeContainer::add, subtype on knot types, env_clear) over a corpus of ~430 concrete Rust types (cross product of element/key/value types under every container, derived, generic, renamed, recursive and mutually recursive types, two different local types with the same std::any::type_name; texts and vectors of one-byte elements sometimes have lengths 127/128/129/16383/16384/16385), interleaved by a seeded scheduler (sequential, uniform, bursty, alternating) with injected history events: env_clear at arbitrary instants, arguments that fail mid-value, decodes that fail mid-value (truncated message, quota abort, wrong type), abandoned builders/decoders, writer faults. Every task is also executed alone on a fresh thread as the reference. distinct = distinct (fingerprint of the thread memo before the call over 12 tracked recursive/derived types, API call kind, corpus type). non-trivial = at least two tasks shared a thread.",
         assumptions: &[
             "'whatever ran before' = earlier completed or failed API calls of any task on the thread, and env_clear (public); re-entrancy from inside user Deserialize impls is not generated",
             "bytes are not required to be equal across different histories (the source documents that memo order may change the table layout), only outcomes and decoded values",
@@ -46,7 +46,7 @@ static META: [PropertyMeta; 8] = [
         id: "C04",
         level: "exploration",
         engine: "wire-sim",
-        rule: "a run = one generated environment, one service lineage of up to 7 candidate versions produced by random upgrade steps (add/drop optional field, add required field in results, add/drop variant case under opt, int->nat in results, nat->int / wrap in opt / to reserved in arguments, function/service reference signatures, append optional argument/result, add method, deliberately unrelated rewrites), each deployed only if the real checker accepts it (type-level subtype, or service_compatible on harness-printed text), 1-4 clients pinned to the version current when they joined, 2-10 calls and their replies travelling with seeded delays on a discrete-event network (so that they are delivered after later upgrades), duplicated calls, relays holding an intermediate version, plus 2-8 native pairings (value of Rust type S decoded at Rust type R when the checker accepts S <: R; the decoded Rust value must be the sent value seen at R's type; host-limited receivers excluded, 128-bit receivers get senders whose numbers stay below 2^120). distinct = distinct (multiset of upgrade-step kinds between sender and receiver version, direction/method) and distinct native (sender, receiver) pairs. non-trivial = a message was delivered across at least one upgrade, or a native pairing of two different types was accepted.",
+        rule: "a run = one generated environment, one service lineage of up to 7 candidate versions produced by random upgrade steps (add/drop optional field, add required field in results, add/drop variant case under opt, int->nat in results, nat->int / wrap in opt / to reserved in arguments, function/service reference signatures, append optional argument/result, add method, deliberately unrelated rewrites), each deployed only if the real checker accepts it (type-level subtype, or service_compatible on harness-printed text), 1-4 clients pinned to the version current when they joined, 2-10 calls and their replies travelling with seeded delays on a discrete-event network (so that they are delivered after later upgrades), duplicated calls, relays holding an intermediate version, plus 2-8 native pairings, and an enumerated segment in which the first runs pair every corpus type as sender with every corpus type as receiver, 48 receivers per run (value of Rust type S decoded at Rust type R when the checker accepts S <: R; the decoded Rust value must be the sent value seen at R's type; host-limited receivers excluded, 128-bit receivers get senders whose numbers stay below 2^120). distinct = distinct (multiset of upgrade-step kinds between sender and receiver version, direction/method) and distinct native (sender, receiver) pairs. non-trivial = a message was delivered across at least one upgrade, or a native pairing of two different types was accepted.",
         assumptions: &[
             "decode success is demanded only for (sender type, receiver type) pairs the real checker accepts directly at delivery time; pairs several upgrades apart that it does not accept are counted, not judged (transitivity is C05)",
             "the oracle is deliberately weak: decoding succeeds, the result is of the receiver's type (own typing judgement), relayed values are coherent per the spec's ~ relation; for native receivers the result is compared with the sent value field by field (models::stype::coerced: exact except that any option may have become absent and that host sets/maps may reorder/deduplicate); full equality with spec coercion would be C02",
@@ -115,7 +115,7 @@ static META: [PropertyMeta; 8] = [
         id: "C20",
         level: "fault_enumeration",
         engine: "entropy-sim",
-        rule: "a run = one generated environment (0-5 definitions, recursive, with planted hard cases: uninhabited `record {L}`, variant whose first case is recursive, rose tree; planted depth families T/L/W/VT with a known nesting bound, VT recursing through a vector of a named type; `empty` and `reserved` allowed), 1-3 requested types, one generator configuration drawn from a swarm (depth -1..30 — 30 only where the recursion cannot branch, 12 otherwise —, size -5..1000, width 0..40, ranges incl. inverted and out-of-type ones, every text kind incl. an unknown one, per-path overrides incl. configured `value` lists that do or do not fit), and one entropy buffer of 0-256 bytes (random, all-00, all-FF, period 3); the fault 'entropy runs dry after k bytes' is enumerated over every prefix k = 0..n. Every returned argument list is judged by the harness's own typing judgement, annotate_type and to_bytes_with_types. distinct = distinct (requested type, size of the generated value). non-trivial = the generator returned values at least once.",
+        rule: "a run = one generated environment (0-5 definitions, recursive, with planted hard cases: uninhabited `record {L}`, variant whose first case is recursive, rose tree; planted depth families T/L/W/VT with a known nesting bound, VT recursing through a vector of a named type; `empty` and `reserved` allowed), 1-3 requested types, one generator configuration drawn from a swarm (depth -1..30 — 30 only where the recursion cannot branch, 12 otherwise —, size -5..1000, width 0..40, ranges incl. inverted and out-of-type ones, every text kind incl. an unknown one, per-path overrides by definition name, constructor, primitive type name or field label, incl. configured `value` lists that do or do not fit and the same literal configured for several number types at once), and one entropy buffer of 0-256 bytes (random, all-00, all-FF, period 3); the fault 'entropy runs dry after k bytes' is enumerated over every prefix k = 0..n. Every returned argument list is judged by the harness's own typing judgement, annotate_type and to_bytes_with_types. distinct = distinct (requested type, size of the generated value). non-trivial = the generator returned values at least once.",
         assumptions: &[
             "termination is judged by 'returns' (wall-clock watchdog as backstop), not by a size formula",
             "a configuration TOML the config parser rejects is counted, not judged",
